@@ -333,6 +333,12 @@ pub struct BuiltProject {
 pub fn build_project(pc: &ProjCfg) -> Option<BuiltProject> {
     let mut files: BTreeMap<String, String> = c18::base_files().into_iter().map(|(k, v)| (k.to_string(), v)).collect();
     files.insert("schema/zextra.graphql".into(), EXTRA_SCHEMA.into());
+    // an import cycle whose closing file points back into two files that are still being resolved,
+    // and a chain a -> b -> c
+    files.insert("src/cyc/main.graphql".into(), "#import A1 from \"./a.graphql\"\nquery CycMain { me { ...A1 } }\n".into());
+    files.insert("src/cyc/a.graphql".into(), "#import B1 from \"./b.graphql\"\nfragment A1 on User { id ...B1 }\nfragment A2 on User { name }\n".into());
+    files.insert("src/cyc/b.graphql".into(), "#import C1 from \"./c.graphql\"\nfragment B1 on User { id ...C1 }\nfragment B2 on User { age }\n".into());
+    files.insert("src/cyc/c.graphql".into(), "#import A2 from \"./a.graphql\"\n#import B2 from \"./b.graphql\"\nfragment C1 on User { ...A2 ...B2 }\n".into());
     files.insert("src/deep/orgs.graphql".into(), EXTRA_OP.into());
     for id in pc.faults {
         let ft = c18::FAULTS.iter().find(|f| f.id == *id)?;
